@@ -1,6 +1,6 @@
 //verif:pkg .
 //verif:use streams_mcp
-//verif:bound one session, an old listening stream and a new one; deterministic kernels: (a) a send issued at the very moment the new stream's headers are flushed, (b) a send after the old stream's handler has exited, (c) a stream whose request context ends removes only itself; exploration kernels: (d) old GET, new GET and a sender, (e) an old stream ending through its own request context while a new GET registers, then a send as three goroutines under all schedules at the modelled synchronisation points with <= 2 (thorough 3) forced context switches (engine only)
+//verif:bound one session, an old listening stream and a new one; deterministic kernels: (a) a send issued at the very moment the new stream's headers are flushed, (b) a send after the old stream's handler has exited, (c) a stream whose request context ends removes only itself, (c') a notification Write stalled on the old stream fails or completes after the new stream took over; exploration kernels: (d) old GET, new GET and a sender, (e) an old stream ending through its own request context while a new GET registers, then a send as three goroutines under all schedules at the modelled synchronisation points with <= 2 (thorough 3) forced context switches (engine only)
 //verif:assume more than one reconnect generation and real network timing are outside the claim
 package mcp
 
@@ -62,6 +62,53 @@ func H_C11_send_after_old_exit() {
 	go srv.SendRequest(context.Background(), id, &JSONRPCRequest{JSONRPC: "2.0", ID: "r1", Request: Request{Method: "roots/list"}})
 	vQuiesce()
 	vAssert("request-on-new-stream", c11Has(nw.rec, "roots/list"))
+	vReach("end")
+}
+
+// H_C11_inflight_write_on_old_stream_fails: a notification is being written to the old stream (its Write is
+// stalled) when a new GET replaces that stream; the stalled Write then fails (or completes). The failure of the
+// old stream must not touch the new one: the session still owns the new stream and a send arrives on it.
+func H_C11_inflight_write_on_old_stream_fails() {
+	vRandConcrete(true)
+	srv := NewServer("srv", "1.0", WithPostSSEEnabled(false))
+	id := c11Session(srv)
+	vAssume(id != "")
+	old := c11Open(srv, id, nil)
+	vAssume(c11Wait(old.flushed))
+	fails := vBool("stalledWriteFails")
+	gate := make(chan struct{})
+	stalled := make(chan struct{}, 1)
+	first := true
+	old.rec.onWrite = func() {
+		if !first {
+			return
+		}
+		first = false
+		stalled <- struct{}{}
+		<-gate
+		if fails {
+			old.rec.failFrom = old.rec.writes + 1
+		}
+	}
+	firstDone := make(chan struct{})
+	go func() {
+		srv.SendNotification(id, "n/marker", map[string]interface{}{"m": "MARK-OLD"})
+		close(firstDone)
+	}()
+	vAssume(c11Wait(stalled))
+	nw := c11Open(srv, id, nil)
+	vAssert("new-stream-headers", c11Wait(nw.flushed))
+	close(gate)
+	vAssert("stalled-send-returns", c11Wait(firstDone))
+	vQuiesce()
+	err := srv.SendNotification(id, "n/marker", map[string]interface{}{"m": "MARK-NEW"})
+	vAssert("send-after-reconnect-succeeds", err == nil)
+	vAssert("delivered-on-new-stream", c11Has(nw.rec, "MARK-NEW"))
+	select {
+	case <-nw.done:
+		vAssert("new-stream-still-open", false)
+	default:
+	}
 	vReach("end")
 }
 
